@@ -145,6 +145,17 @@ func (g *graphGen) block() {
 	switch n := g.r.Intn(23); n {
 	case 20: // collections at and around the table's growth thresholds
 		sz := []int{7, 8, 9, 12, 13, 14, 25, 26, 27, 52, 53}[g.r.Intn(11)]
+		if g.r.Chance(1, 3) {
+			// every key in ONE chain (ints that differ only above bit 32 share
+			// Int.Hash): 3 and more overflow buckets
+			n := g.r.Pick3(17, 25, 41)
+			if g.o.D.Set && g.r.Bool() {
+				g.bind("set", fmt.Sprintf("set([q * 4294967296 + %d for q in range(%d)])", g.r.Intn(3), n))
+			} else {
+				g.bind("dict", fmt.Sprintf("{q * 4294967296 + %d: [q] for q in range(%d)}", g.r.Intn(3), n))
+			}
+			return
+		}
 		switch g.r.Intn(3) {
 		case 0:
 			g.bind("dict", fmt.Sprintf("{q: str(q) for q in range(%d)}", sz))
